@@ -1,8 +1,8 @@
 //! C01 Pass-through identity.
 use crate::engine::*;
 use crate::gens::handlers::observers;
-use crate::gens::input::{InputOpts, cut_is_interesting, input};
-use crate::gens::sched::schedule;
+use crate::gens::input::{InputOpts, cut_is_interesting, input_in};
+use crate::gens::sched::sched_spec;
 use crate::gens::soup::has_markup;
 use crate::obs::*;
 use crate::tape::{Tape, fnv};
@@ -20,7 +20,7 @@ pub struct Case {
 
 pub fn decode(tape: &[u16]) -> Case {
     let mut t = Tape::new(tape);
-    let (input, enc) = input(&mut t, &InputOpts::default());
+    let enc = crate::gens::input::pick_encoding(&mut t, true);
     let mut cfg = Cfg { encoding: enc, ..Cfg::default() };
     cfg.strict = t.chance(1, 2);
     cfg.prealloc = *t.pick(&[0usize, 1, 64, 1024]);
@@ -29,7 +29,9 @@ pub fn decode(tape: &[u16]) -> Case {
     if hk == 1 {
         observers(&mut t, &mut cfg, 3, 2);
     }
-    let cuts = schedule(&mut t, input.len());
+    let spec = sched_spec(&mut t);
+    let input = input_in(&mut t, &InputOpts::default(), enc);
+    let cuts = spec.resolve(input.len());
     Case { input, cuts, cfg }
 }
 
@@ -123,6 +125,19 @@ pub fn check_case(c: &Case, st: &mut Stats) -> PResult {
 impl Prop for C01 {
     fn id(&self) -> &'static str {
         "C01"
+    }
+    fn fixed_cases(&self) -> Vec<FixedCase> {
+        vec![FixedCase {
+            name: "text-chunk-loc-gap",
+            finding: Some("C14-text-chunk-loc-gap"),
+            what: "'aa\u{e9}' written byte-wise under a text observer: the chunk ranges must cover byte 2",
+            run: Box::new(|st| {
+                let input = "aa\u{e9}".as_bytes().to_vec();
+                let mut cfg = Cfg::default();
+                cfg.docs.push(DocSpec { text: true, ..Default::default() });
+                check_case(&Case { input, cuts: vec![1, 2, 3], cfg }, st)
+            }),
+        }]
     }
     fn rule(&self) -> String {
         "case = (soup/bytes input in one of 36 encodings, observer handler set, strict, prealloc, write schedule); oracle: sink bytes == input (text-handler-captured ranges normalised via one-shot decode/encode; ambiguity error => prefix). non-trivial = input has markup AND (handler set non-empty OR a cut lies strictly inside a <...> construct or a multi-byte char); distinct by hash of (input, cuts, cfg)".into()
